@@ -572,7 +572,11 @@ func builtinAppend(args ...Object) (Object, error) {
 	case *Array:
 		return &Array{Value: append(arg.Value, args[1:]...)}, nil
 	case *ImmutableArray:
-		return &Array{Value: append(arg.Value, args[1:]...)}, nil
+		// copy: the resulting array is mutable and must not share storage
+		// with the immutable array
+		v := make([]Object, 0, len(arg.Value)+len(args)-1)
+		v = append(v, arg.Value...)
+		return &Array{Value: append(v, args[1:]...)}, nil
 	default:
 		return nil, ErrInvalidArgumentType{
 			Name:     "first",
